@@ -31,7 +31,7 @@ theorem acceptsX_old (k : Kind) (c : Char) : acceptsX k.x c = accepts k c := by
 def modelFlagged : XKind → List Char
   | .int => ['c', 's'] | .float => ['p', 's'] | .str => ['s', 'p', 'c', 'C', 'u', 'd', 't']
   | .bool => ['t', 'T', 'y', 'Y', 's', 'p'] | .bin => ['s', 'p', 'b', 'B', 'u', 't', 'T'] | .dflt => ['d', 's', 'p', 'D']
-  | .semver => ['s'] | .uri => ['s'] | .typ => ['s', 'p']
+  | .semver => ['s', 'p'] | .uri => ['s', 'p'] | .semverRange => ['p', 's'] | .typ => ['s', 'p']
   | _ => []
 
 /-- kinds whose function applies the string flags whatever the letter -/
